@@ -1,6 +1,6 @@
 //go:build verif
 
-//verif:bounds framebuffer console: depth 8/15/16/24/32, RGB mask layout 5-5-5/5-6-5/8-8-8 (quick) or fully symbolic positions/sizes (thorough), colour indices 0..15 (quick) / 0..255 (thorough), pitch = row bytes + {0,3}, logo offset {0,1} rows, synthetic fonts 8x2 (1 byte/row) and 9x2 (2 bytes/row) with 4 glyphs of symbolic data, grid 2x2 cells plus one remainder column and one remainder row; every framebuffer byte arbitrary; every 32-bit x, y, width, height, line count; character < 4 (the synthetic fonts have 4 glyphs), every 8-bit colour index
+//verif:bounds framebuffer console: depth 8/16 with pitch padding 3 and a one-row logo (quick) or depth 8/15/16/24/32, padding {0,3}, logo {0,1} (thorough), RGB mask layout 5-5-5/5-6-5/8-8-8 (quick) or fully symbolic positions/sizes (thorough), colour indices 0..15 (quick) / 0..255 (thorough), pitch = row bytes + {0,3}, logo offset {0,1} rows, synthetic fonts 8x2 (1 byte/row) and 9x2 (2 bytes/row) with 4 glyphs of symbolic data, grid 2x2 cells plus one remainder column and one remainder row; every framebuffer byte arbitrary; every 32-bit x, y, width, height, line count; character < 4 (the synthetic fonts have 4 glyphs), every 8-bit colour index
 //verif:assumes the frame buffer is a Go slice of exactly height*pitch bytes (an access outside it is a Go index panic = violation); palette = the driver's own default palette; port writes stubbed
 package console
 
@@ -27,7 +27,8 @@ type vfFb struct {
 
 func vfNewFb() *vfFb {
 	f := &vfFb{}
-	f.bpp = [5]uint32{8, 15, 16, 24, 32}[zzverif.Choice("bpp", 5)]
+	// quick: 8 and 16 bpp; thorough: all five depths
+	f.bpp = [5]uint32{8, 16, 15, 24, 32}[zzverif.Choice("bpp", zzverif.Param("depths", 2, 5))]
 	if zzverif.Choice("font", 2) == 0 {
 		f.gw, f.bpr = 8, 1
 	} else {
@@ -36,8 +37,8 @@ func vfNewFb() *vfFb {
 	f.gh = 2
 	f.cols, f.rows = 2, 2
 	f.rc, f.rr = 1, 1
-	f.pad = [2]uint32{0, 3}[zzverif.Choice("pad", 2)]
-	f.offY = uint32(zzverif.Choice("logo", 2))
+	f.pad = [2]uint32{3, 0}[zzverif.Choice("pad", zzverif.Param("pads", 1, 2))]
+	f.offY = uint32([2]int{1, 0}[zzverif.Choice("logo", zzverif.Param("logos", 1, 2))])
 	f.bytesPP = (f.bpp + 1) >> 3
 	f.width = f.cols*f.gw + f.rc
 	f.height = f.offY + f.rows*f.gh + f.rr
@@ -138,6 +139,12 @@ func Verif_C19_fb_write() {
 	f := vfNewFb()
 	ch, fg, bg := zzverif.U8("ch")&3, vfColour("fg"), vfColour("bg")
 	x, y := zzverif.U32("x"), zzverif.U32("y")
+	// case split: coordinates inside the grid are enumerated (so that pixel addresses are concrete on each
+	// path), coordinates outside it stay symbolic; together the cases cover every 32-bit x, y
+	if x >= 1 && x <= f.cols && y >= 1 && y <= f.rows {
+		x = uint32(zzverif.Split("x", uint64(x), 4))
+		y = uint32(zzverif.Split("y", uint64(y), 4))
+	}
 	panicked := zzverif.Catch(func() { f.cons.Write(ch, fg, bg, x, y) })
 	zzverif.Assert(!panicked, "Write never touches memory outside the framebuffer")
 	if panicked {
@@ -163,6 +170,19 @@ func Verif_C19_fb_fill() {
 	f := vfNewFb()
 	bg := vfColour("bg")
 	x, y, w, h := zzverif.U32("x"), zzverif.U32("y"), zzverif.U32("w"), zzverif.U32("h")
+	// case split as in fb_write: small values are enumerated, large ones stay symbolic (the driver clamps them to constants)
+	if x <= f.cols {
+		x = uint32(zzverif.Split("x", uint64(x), 4))
+	}
+	if y <= f.rows {
+		y = uint32(zzverif.Split("y", uint64(y), 4))
+	}
+	if w <= f.cols {
+		w = uint32(zzverif.Split("w", uint64(w), 4))
+	}
+	if h <= f.rows {
+		h = uint32(zzverif.Split("h", uint64(h), 4))
+	}
 	panicked := zzverif.Catch(func() { f.cons.Fill(x, y, w, h, 0, bg) })
 	zzverif.Assert(!panicked, "Fill never touches memory outside the framebuffer")
 	if panicked {
@@ -192,6 +212,9 @@ func Verif_C19_fb_scroll() {
 	f := vfNewFb()
 	lines := zzverif.U32("lines")
 	dir := ScrollDir(zzverif.Choice("dir", 2))
+	if lines <= f.rows+1 {
+		lines = uint32(zzverif.Split("lines", uint64(lines), 5))
+	}
 	// KF-C19-1: Scroll copies whole pitch rows, so it rewrites padding bytes when pitch > row bytes,
 	// and scrolling down also shifts the remainder rows below the grid.
 	zzverif.Known("KF-C19-1", zzverif.Or(f.pad > 0, zzverif.And(dir == ScrollDirDown, f.rr > 0)))
